@@ -230,13 +230,25 @@ void ed_map_ell2_5mod8_st(ed_t p, const fp_t t);
 void ok_map_loop_st_map(ed_t p, const uint8_t *msg, size_t len) {
 	fp_t t;
 	fp_null(t);
-	fp_new(t);
-	fp_read_bin(t, msg, len);
-	ed_map_ell2_5mod8_st(p, t);
-	for (int i = 0; i < 3; i++) {
-		ed_dbl(p, p);
+	RLC_TRY {
+		fp_new(t);
+		fp_read_bin(t, msg, len);
+		ed_map_ell2_5mod8_st(p, t);
+		switch (ed_param_get()) {
+			case CURVE_ED25519:
+				for (int i = 0; i < 3; i++) {
+					ed_dbl(p, p);
+				}
+				break;
+			default:
+				RLC_THROW(ERR_NO_VALID);
+				break;
+		}
+	} RLC_CATCH_ANY {
+		RLC_THROW(ERR_CAUGHT);
+	} RLC_FINALLY {
+		fp_free(t);
 	}
-	fp_free(t);
 }
 
 /* two doublings only */
